@@ -164,6 +164,11 @@ pub fn run(ctx: &Ctx, with_reader_side: bool) -> Report {
         }
         let res = panicmon::catch(|| -> Result<(Vec<u8>, Vec<u8>), Error> {
             if by_path {
+                // every second path-created pair overwrites an existing, longer shapefile
+                if i % 2 == 1 {
+                    std::fs::write(&shp_path, vec![0xAAu8; 70_000 + 4 * nshapes])?;
+                    std::fs::write(&shx_path, vec![0x55u8; 9_000 + 8 * nshapes])?;
+                }
                 {
                     let mut w = ShapeWriter::from_path(&shp_path)?;
                     for (k, s) in shapes.iter().enumerate() {
@@ -232,6 +237,30 @@ pub fn run(ctx: &Ctx, with_reader_side: bool) -> Report {
                 Ok((n, v))
             });
             rep.count("pairs_read_through_from_path", 1);
+            // in-memory destinations that still hold an older, longer file: the writer cannot
+            // truncate them, but the header fields it writes must describe what it wrote
+            if i % 4 == 3 && nshapes >= 1 {
+                let mut old_shp = Cursor::new(vec![0xEEu8; shp.len() + 640]);
+                let mut old_shx = Cursor::new(vec![0xEEu8; shx.len() + 96]);
+                let reused = panicmon::catch(|| -> Result<(), Error> {
+                    let mut w = ShapeWriter::with_shx(&mut old_shp, &mut old_shx);
+                    for s in &shapes {
+                        write_one(&mut w, s)?;
+                    }
+                    Ok(())
+                });
+                rep.count("reused_longer_buffers", 1);
+                let (a, b) = (old_shp.into_inner(), old_shx.into_inner());
+                let ok = matches!(reused, Ok(Ok(()))) && a[..shp.len()] == shp[..] && b[..shx.len()] == shx[..];
+                if !ok {
+                    let shx_words = crate::rawshp::be32(&b, 24).unwrap_or(-1);
+                    rep.violation(
+                        &format!("reused-buffer/{}", type_name(t)),
+                        &case,
+                        J::obj(vec![("what", J::s("written over an older, longer buffer the first bytes differ from the file written to an empty destination")), ("shx_length_field_words", J::Int(shx_words as i64)), ("expected_words", J::Int(50 + 4 * nshapes as i64))]),
+                    );
+                }
+            }
             let want: Vec<D> = written.iter().map(|d| d.expected_after_roundtrip()).collect();
             match by_path_reader {
                 Ok(Ok((n, v))) if n == nshapes && v.len() == nshapes && v.iter().zip(&want).all(|(g, w)| first_diff(g, w).is_none()) => {}
